@@ -54,7 +54,7 @@ def const_eval(n):
     k = n['kind']
     if k in ('ParenExpr', 'ConstantExpr'):
         return const_eval(n['inner'][0])
-    if k == 'IntegerLiteral':
+    if k in ('IntegerLiteral', 'CharacterLiteral'):
         return wrapint(int(n['value']), ctype(n))
     if k in ('ImplicitCastExpr', 'CStyleCastExpr') and n.get('castKind') in ('IntegralCast', 'NoOp'):
         return wrapint(const_eval(n['inner'][0]), ctype(n))
@@ -118,6 +118,8 @@ class Fn:
         if k == 'ConstantExpr':
             return self.ev(n['inner'][0], env)
         if k == 'IntegerLiteral':
+            return lit(n['value'], ctype(n)[0])
+        if k == 'CharacterLiteral':
             return lit(n['value'], ctype(n)[0])
         if k in ('ImplicitCastExpr', 'CStyleCastExpr'):
             ck = n.get('castKind')
@@ -219,6 +221,9 @@ class Fn:
             else:
                 env[key] = et[key]
         for key in ('$done', '$ret'):
+            if key == '$ret' and (et[key] is None or ee[key] is None):
+                env[key] = et[key] if ee[key] is None else ee[key]   # only read when $done, i.e. on the side that returned
+                continue
             if et[key] != ee[key]:
                 env[key] = self.bind('ret' if key == '$ret' else 'done', f'(if {cond} then {et[key]} else {ee[key]})')
             else:
